@@ -231,6 +231,19 @@ class Transformer(NamedTuple):
         for contract in func.contracts:
             if contract.category not in cats:
                 continue
+            if Remove(contract.line) in self.mutations:
+                # `_mutations_excs` already replaced this `@deal.pure`
+                # by `@deal.raises` and an empty `@deal.has`.
+                # Drop the latter, the new `@deal.has` replaces it.
+                empty_has = InsertContract(
+                    line=self._get_insert_line(func),
+                    indent=func.col,
+                    contract=Category.HAS,
+                    args=[],
+                )
+                if empty_has in self.mutations:
+                    self.mutations.remove(empty_has)
+                continue
             yield from self._remove_contract(func, contract)
             if contract.category == Category.PURE:
                 yield InsertContract(
